@@ -36,7 +36,7 @@ ASSUMPTIONS = ['edits that only touch the final newline or a trailing blank '
                'line are not produced (C04 documents that tolerance)']
 
 OPS = ['sub', 'ins', 'del', 'trail', 'addline', 'delline', 'ins_na',
-       'ins_token']
+       'ins_token', 'home_digit', 'ins_bom']
 
 
 @st.composite
@@ -66,18 +66,49 @@ def aim(case):
             case['mutations'].append(
                 {'target': {'stdout': 'stdout', 'stderr': 'stderr'}.get(
                     f['name'], 'exit'), 'op': 'ins', 'i': 0, 'j': 1, 'k': 0})
+        if f['kind'] == 'text' and any('cache at {HOME}' in ln
+                                       for ln in f.get('lines', [])):
+            case['mutations'].append({'target': 'file', 'op': 'home_digit',
+                                      'i': 0, 'j': 0, 'k': k})
+        if f['kind'] == 'text' and any(ord(ch) > 127 for ln in f.get(
+                'lines', []) for ch in ln) and not (f.get('lines') or [''])[
+                    0].startswith('\ufeff'):
+            # a byte-order mark appears at the start of a file that had none
+            case['mutations'].append({'target': 'file', 'op': 'ins_bom',
+                                      'i': 0, 'j': 0, 'k': k})
         if f['kind'] == 'text' and f['name'].startswith('rep'):
             case['mutations'].append({'target': 'file', 'op': 'ins',
                                       'i': 0, 'j': 1, 'k': k})
+    for t in ('stdout', 'stderr'):
+        if any('cache at {HOME}' in ln for ln in case['cmd'][t]):
+            case['mutations'].append({'target': t, 'op': 'home_digit',
+                                      'i': 0, 'j': 0, 'k': 0})
     return case
 
 
 def strategy(tier):
     nmut = 4 if tier == 'quick' else 6
+
+    def home_line(case):
+        # one case in ten: the only machine-specific thing in the output is
+        # a path under a home directory whose name holds the user's name
+        # (three stdout lines, no stderr: see gentestcmd.Workdir)
+        if case['cmd'].pop('home_line', 0) == 0 and case['cmd']['n'] >= 2:
+            extra = [ln for ln in case['cmd']['stdout']
+                     if not any(t in ln for t in G.MACHINE_TOKENS)
+                     and '127.0.0.1' not in ln][:2]
+            extra = (extra + ['alpha beta', 'total 7'])[:2]
+            case['cmd']['stdout'] = [extra[0],
+                                     'cache at {HOME}/.cache/app n=12',
+                                     extra[1]]
+            case['cmd']['stderr'] = []
+            case['cmd']['no_stdout'] = False
+        return case
     return st.fixed_dictionaries({
-        'cmd': G.command_case(tier),
+        'cmd': st.tuples(G.command_case(tier), st.integers(0, 9)).map(
+            lambda t: dict(t[0], home_line=t[1])),
         'mutations': st.lists(mutation(), min_size=2, max_size=nmut),
-    }).map(aim)
+    }).map(home_line).map(aim)
 
 
 def valid(case):
@@ -126,6 +157,26 @@ def mutate_lines(lines, m, env):
     def clean(ln):
         s = G.substitute(ln, env)
         return host not in s and user not in s
+    if op == 'home_digit':
+        # a line that names a path under the home directory and nothing
+        # else that is specific to the machine, in a text without any other
+        # machine-specific line: such a line draws a warning and is compared
+        idx = [i for (i, ln) in enumerate(lines) if 'cache at {HOME}' in ln]
+        others = [ln for (i, ln) in enumerate(lines) if i not in idx[:1]]
+        if not idx or any(specific(ln, True) for ln in others) or any(
+                t in lines[idx[0]] for t in G.MACHINE_TOKENS
+                if t != '{HOME}') or any(t in lines[idx[0]] for t in DATEISH):
+            return None
+        if '{TODAY' in ' '.join(lines) or 'n=12' not in lines[idx[0]]:
+            return None
+        lines[idx[0]] = lines[idx[0]].replace('n=12', 'n=17')
+        return lines
+    if op == 'ins_bom':
+        if not lines or lines[0].startswith('\ufeff') or specific(
+                lines[0], has_today) or not clean(lines[0]):
+            return None
+        lines[0] = '\ufeff' + lines[0]
+        return lines
     if op == 'addline':
         pos = m['i'] % (len(lines) + 1)
         new = 'ADDED line Q'
